@@ -100,7 +100,7 @@ AUDIO_ROOTS = [
 # "cafe\u0301" / "grabacio\u0308n" are spelled with combining characters
 # (NFD): a path is a sequence of code points, not of glyphs
 PATH_PARTS = ["x", "sub dir", "ünï", "a.b", "rec-01", "2024", "日本",
-              "cafe\u0301", "grabacio\u0308n", " lead", "trail "]
+              "cafe\u0301", "grabacio\u0308n", " lead", "trail ", "latest"]
 
 STATES = ["assigned", "completed", "verified", "rejected"]
 
